@@ -5,6 +5,7 @@ mod p_edit;
 mod p_multigen;
 mod p_pipe;
 mod p_tok;
+mod p_windows;
 mod p_ws;
 
 use common::*;
@@ -23,6 +24,7 @@ fn component(name: &str) -> (ExecFn, GenFn) {
     match name {
         "edit" => (p_edit::exec, p_edit::gen),
         "pipe" => (p_pipe::exec, p_pipe::gen),
+        "windows" => (p_windows::exec, p_windows::gen),
         "ws" => (p_ws::exec, p_ws::gen),
         "bpetrain" => (p_bpetrain::exec, p_bpetrain::gen),
         "tok" => (p_tok::exec, p_tok::gen),
